@@ -21,7 +21,7 @@ MANIFEST_INFO = {
     "engine": "B",
     "design_ref": "DESIGN.md section 5, C11",
     "technique": "exhaustive enumeration of decorator trees (CopyStreamResult, StreamTagger x4 parameterisations (add only, add+discard, discard only, overlapping add/discard), TimestampingStreamResult, StreamToQueue drained into its child, StreamFailFast, recording sinks; depth <= 3, fan-out <= 2/3) x all event sequences up to a length bound (tags as set / frozenset / None / empty, timestamp present or absent, positional or keyword ids), each executed on fresh real objects; expected sink logs are the composition of pure per-decorator transforms along each path; argument and alias snapshots",
-    "level_text": "Every spine tree of decorator depth <= 2 with every leaf-sibling placement (about 2000 trees) and every depth-3 spine (quick: siblings only at the root; thorough: everywhere, plus fan-out 3) is built afresh and fed startTestRun, every sequence of <= 2 (quick) / 3 (thorough) events from a 16-event alphabet (incl. an empty-string route code, a supplied timestamp in the future, a failing status carrying an attachment, eof and mime type without a file), also with the run ended and the same tree started again in between; sinks that return None or a truthy value; taggers configured with sets or one-shot iterators, stopTestRun. Each sink must have received exactly the sent events transformed by the decorators on its own path (tags added/discarded, missing timestamp filled with a tz-aware UTC 'now' inside the call bracket (the checks run in a local time zone that is not UTC), route code prefixed) and nothing else; the fail-fast callback count must equal the number of fail/uxsuccess events reaching it; the caller's argument objects must be unchanged after every call; no tag set held by one sink may change after it was delivered (aliasing with a sibling or the caller).",
+    "level_text": "Every spine tree of decorator depth <= 2 with every leaf-sibling placement (about 2000 trees) and every depth-3 spine (quick: siblings only at the root; thorough: everywhere, plus fan-out 3) is built afresh and fed startTestRun, every sequence of <= 2 (quick) / 3 (thorough) events from a 17-event alphabet (incl. an empty-string route code, a supplied timestamp in the future, a supplied naive timestamp, a failing status carrying an attachment, eof and mime type without a file), also with the run ended and the same tree started again in between; sinks that return None or a truthy value; taggers configured with sets or one-shot iterators, stopTestRun. Each sink must have received exactly the sent events transformed by the decorators on its own path (tags added/discarded, missing timestamp filled with a tz-aware UTC 'now' inside the call bracket (the checks run in a local time zone that is not UTC), route code prefixed) and nothing else; the fail-fast callback count must equal the number of fail/uxsuccess events reaching it; the caller's argument objects must be unchanged after every call; no tag set held by one sink may change after it was delivered (aliasing with a sibling or the caller).",
     "level_note": "Only test_id/test_status are passed positionally (as every caller in testtools does); StreamToQueue is drained by the harness after every call, forwarding start/stop/status to its child.",
 }
 
@@ -139,6 +139,7 @@ def transform(path, ev):
 
 
 T_FUTURE = datetime.datetime(2100, 1, 1, tzinfo=UTC)
+T_NAIVE = datetime.datetime(2021, 5, 5, 1, 2, 3)  # no tzinfo: compares unequal to every aware datetime
 BASE = dict(test_id="t", test_status=None, test_tags=None, runnable=True, file_name=None, file_bytes=None, eof=False, mime_type=None, route_code=None, timestamp=T1)
 
 
@@ -166,6 +167,7 @@ EVENTS = [
     (ev(test_status="success", route_code=""), None, False),  # an empty route code is not "no route code"
     (ev(test_status="inprogress", timestamp=T_FUTURE), None, False),  # a supplied timestamp ahead of the local clock
     (ev(test_status="fail", file_name="tb", file_bytes=b"x", eof=True), None, False),  # outcome and attachment in ONE event
+    (ev(test_status="success", timestamp=T_NAIVE), None, False),  # a supplied naive timestamp is the caller's: forwarded as it is
 ]
 
 # pseudo event: the run ends and the same tree is used for another run
